@@ -75,11 +75,15 @@ PROPS = {
                     "Env.deflate/Env.inflate are abstract: c12_trunc_tail (truncWriter and flateReaderTail are inverse) is a stand-alone lemma not "
                     "connected to them, and the compression level only varies the observed tables; control frames are interleaved BETWEEN messages "
                     "only in c12_roundtrip (control frames between the fragments of one message are covered on the receive side by c13_partial and "
-                    "by the generator, not by the round-trip theorem); the driver calls Ws.feed / Ws.upParse / Ws.appWrite of Model/ themselves",
+                    "by the generator, not by the round-trip theorem); the driver calls Ws.feed / Ws.upParse / Ws.appWrite of Model/ themselves; "
+                    "asynchronous writes through the bounded send queue (Ws.appWriteQ: admission check after compression, then writeFrame's per-frame "
+                    "check): c12_sendq_all_or_nothing (accepted = appWrite, refused = nothing queued, state untouched), exercised by `sendq=` cases "
+                    "whose sender conn is gated during a batch so that the queue length is deterministic; the writer goroutine's draining is not "
+                    "modelled (the queue is empty again before the next batch starts: harness waits for it)",
             "technique": "Lean 4 proof (induction over frame and segment lists) + differential correspondence"},
         "lean": ["NbioVerif.Properties.C12"], "drivers": ["wsdrv"], "harness": ["hws"],
         "facts": [ws_facts],
-        "runs": [_run(["werr", "wire", "recv", "rerr", "back", "berr", "err", "codec", "rx", "wx", "proto", "resp", "status", "req", "srx", "swx", "crx", "cwx", "serr"])],
+        "runs": [_run(["werr", "werrs", "wire", "recv", "rerr", "back", "berr", "err", "codec", "rx", "wx", "proto", "resp", "status", "req", "srx", "swx", "crx", "cwx", "serr"])],
         "oracles": ["c12-"],  # c12-roundtrip, c12-mask, c12-trunc, c12-handshake
         "rule": "case = message program on two back-to-back conns (role, compression level, frame limit, message limit, segmentation style) or a "
                 "frame stream fed to Parse, or a maskXOR sweep; distinct by hash of (configuration class, per-op outcome classes); non-trivial iff "
@@ -118,10 +122,10 @@ PROPS = {
         "manifest": {
             "text": "Lean theorems: in every reachable state of the Parse model the message under assembly is within MessageLengthLimit, every "
                     "delivered message is, the inflate buffer never holds more than the limit whatever the outcome, an oversized frame, "
-                    "fragment sum or inflated size is refused with a 1009 close frame, control payloads over 125 are refused by WriteMessage and "
+                    "fragment sum or inflated size is refused with a 1009 close frame, control payloads over 125 are refused by WriteMessage, WriteClose (status code included), WriteFrame and "
                     "nextFrame, the unparsed cache stays below 14 + max(125, limit - assembled) while the conn lives and within max(ReadLimit, one read) "
                     "(c15_cache_bound_partial; the statement's 'never exceeds the read limit' is a known finding with c15_cache_bound_counterexample). Tied to the code by differential execution (cache and "
-                    "assembly lengths compared after every Parse call) and limit oracles on the implementation alone (bombs, limit-1/limit/limit+1)",
+                    "assembly lengths compared after every Parse call) and limit oracles on the implementation alone (bombs, limit-1/limit/limit+1; every public send entry point with control payloads of 124..127 bytes, judged on the decoded wire)",
             "note": "model fidelity is sampled; allocator capacities and reader chunking are inputs (bytes requested from the allocator are not "
                     "compared); termination of readAll is not a theorem: the loop is structurally recursive on the observed Read results, a "
                     "no-progress Read is outside the reader contract (stuck) and a spinning implementation is caught by the hang oracle; "
@@ -133,7 +137,7 @@ PROPS = {
             "technique": "Lean 4 proof (invariant by induction over the frame loop and the segment list) + differential correspondence"},
         "lean": ["NbioVerif.Properties.C15", srcgen.BRIDGE_WS], "drivers": ["wsdrv"], "harness": ["hws"],
         "facts": [ws_facts, srcgen.src_facts],
-        "runs": [_run(["err", "cache", "msglen", "werr", "rerr", "berr", "rcache", "rmsglen"])],
+        "runs": [_run(["err", "cache", "msglen", "werr", "rerr", "berr", "rcache", "rmsglen", "cerr", "cw"])],
         "oracles": ["c15-"],
         "rule": "same streams as C12; non-trivial iff bytes were retained across calls, a limit was configured and approached, or a message was refused",
         "assumptions": COMMON_ASSUME + ["one byte beyond the limit may be read from the inflater to tell 'exactly the limit' from 'more' (it is never buffered)"],
